@@ -23,6 +23,7 @@ def Pc.spawnOk (M : Nat) : Pc → Bool
   | .jobSigDrop _ _ k | .jobDrop _ _ k | .jobDropNotify _ _ k | .suspSignal _ _ k | .suspSigDrop _ _ k => k.spawnOk M
   | .pfPollRel _ next => next.spawnOk M
   | .dqWakeWith _ _ _ k => k.spawnOk M
+  | .fdDrop _ k => k.spawnOk M
   | .smSet n => decide (n ≤ M)
   | _ => true
 
